@@ -581,3 +581,89 @@ func (RobustnessOracle) Finish(r *Run) {
 	}
 	r.Fail("C10", "healthy_workload_not_scheduled", "after %d cycles the healthy witness workload ww (own queue qw, own node nw) was never bound", r.cycle)
 }
+
+// ---------------------------------------------------------------------------------- C15
+
+// LivelockOracle: closed system; canonical cluster state after every round; a state seen before
+// with evictions in between is a lasso.
+type LivelockOracle struct {
+	BaseOracle
+	seen      map[string]int // state -> round index
+	evictions []int          // cumulative evictions after round i
+	round     int
+	total     int
+	other     int   // evictions of pods that were NOT bound earlier in the same cycle
+	others    []int // cumulative, per round
+}
+
+func (o *LivelockOracle) Prop() string { return "C15" }
+
+func (o *LivelockOracle) AfterCycle(r *Run, cycle int, all []Decision) {
+	boundNow := map[string]bool{}
+	for _, d := range okDecisions(all) {
+		if d.Kind == "bind" {
+			boundNow[d.Pod] = true
+		}
+		if d.Kind == "evict" {
+			o.total++
+			if !boundNow[d.Pod] && d.EvictAction != "consolidation" {
+				o.other++
+			}
+		}
+	}
+}
+
+func (o *LivelockOracle) AfterOp(r *Run, op Op) {
+	if op.Kind != "recreate" {
+		return
+	}
+	if o.seen == nil {
+		o.seen = map[string]int{}
+	}
+	var parts []string
+	for _, p := range r.API.Pods() {
+		if IsReservationPod(p) {
+			continue
+		}
+		st := "pending"
+		switch {
+		case p.DeletionTimestamp != nil:
+			st = "terminating"
+		case podTerminated(p):
+			st = "terminated"
+		case p.Spec.NodeName != "":
+			st = "placed"
+		}
+		parts = append(parts, fmt.Sprintf("%s:%s:%s:%v", p.Name, st, p.Spec.NodeName, PodGroups(p)))
+	}
+	for _, br := range r.API.BindRequests() {
+		if br.Status.Phase != "Succeeded" {
+			parts = append(parts, fmt.Sprintf("br:%s:%s:%s", br.Name, br.Spec.SelectedNode, br.Status.Phase))
+		}
+	}
+	state := strings.Join(parts, "|")
+	o.evictions = append(o.evictions, o.total)
+	o.others = append(o.others, o.other)
+	if prev, ok := o.seen[hashStrings([]string{state})]; ok {
+		if ev := o.total - o.evictions[prev]; ev > 0 {
+			rule := "lasso"
+			if o.other-o.others[prev] == 0 {
+				rule = "lasso_moves_or_same_cycle_binds"
+			}
+			r.Fail("C15", rule, "closed system: the cluster state after round %d equals the state after round %d although %d evictions happened in between (eviction livelock)", o.round, prev, ev)
+		}
+	} else {
+		o.seen[hashStrings([]string{state})] = o.round
+	}
+	o.round++
+}
+
+func (o *LivelockOracle) Finish(r *Run) {
+	n := len(o.evictions)
+	if n >= 6 && o.evictions[n-1] > o.evictions[n-4] {
+		r.Probe("c15_still_evicting_at_bound")
+	}
+	if o.total > 0 {
+		r.Probe("c15_runs_with_evictions")
+	}
+}
